@@ -605,6 +605,11 @@ def ghost_zero_key():
     _symbolic_only()
 
 
+def key_part(key, j):
+    """j-th component of a dict key tuple"""
+    _symbolic_only()
+
+
 def same(a, b):
     """a and b are the very same value (object identity / structural equality of the modelled value);
     unlike ==, a NaN is the same as itself and 1 is not the same as True"""
